@@ -94,6 +94,7 @@ pub fn cases() -> BoxedStrategy<Case> {
 
 fn script(c: &Case) -> String {
     let mut s = String::new();
+    s.push_str("argdump() { printf 'argc=%s\\n' \"$#\"; for _x; do printf '%s:%s\\n' \"${#_x}\" \"$_x\"; done; }\n");
     s.push_str("e=''; s=' a  b '; m='x y z'; g='*.txt'; q='a\"b'; n=$'p\\nq'; unset u; a=('' ' ' 'p q' r)\n");
     for o in ["nullglob", "dotglob"] {
         s.push_str(&format!("shopt -{} {o}\n", if c.opts.iter().any(|x| x == o) { "s" } else { "u" }));
